@@ -39,6 +39,9 @@ struct RResult {
 struct RConfig {
   std::vector<FaultSpec> faults;    // same plan as armed in VfHost (task ignored)
   long max_steps = 200000;
+  // units (by index) marked {"k":"may_be_rejected"} that the implementation's compiler refused: where the manual allows
+  // both a compile-time rejection and a run-time conversion (int/decimal mixing) the model follows the compiler
+  std::vector<size_t> rejected_units;
 };
 
 // run prelude+funcs+body as one unit (how Parser::parse + Executable::run treat one source)
